@@ -18,7 +18,8 @@ PROPS = {
                        ' Later additions (DESIGN 3a.5/3a.6): R0 collector fixpoint; R1 only accepts a trace call made on the handle itself (a payload impl reached through Deref does not colour the box).'
                        ' Rounds 4-5: S1/S6 (open upvalues never outlive the stack region / frame they point into) also run here.'
                        ' Rounds 6-7: a map\'s keys and values must be traced whole and per tuple field; tracing is unconditional (no branch on other state of the object); R1s sees a slot of the intern table being emptied; M5 and N5 (premises of untraced edges) also run here. Round 8: R0 (only a box\'s colour decides whether GcBox::mark / blacken trace its payload), R1 (a property test guards only the tracing of its own field; predicates of the interpreter used as trace filters are evaluated per Value variant), S8 (an uncaught error closes the upvalues of every fiber on the caller chain), S9 (the value-stack storage never moves).'
-                       ' Rounds 9-10: R5 copies of a popped object\'s contents handed to an allocator; S1 / S6 / M5 / N5 as before; R1 per-type clauses unchanged.',
+                       ' Rounds 9-10: R5 copies of a popped object\'s contents handed to an allocator; S1 / S6 / M5 / N5 as before; R1 per-type clauses unchanged.'
+                       ' Round 11: R1k the impl for RefCell<T> reaches the payload on every path (no try_borrow that skips a borrowed cell).',
         'assumptions': COMMON_ASSUME + ['the 40-line mark/sweep colour logic in Heap::{mark_roots,trace_references,sweep} is correct'],
         'not_decided': ['colour logic of the collector core', 'hazards needing whole-program alias reasoning',
                         'host code using the public Root/Gc API'],
@@ -37,7 +38,8 @@ PROPS = {
                        'unit on allocation and sweep, sweep drops exactly the non-black boxes, and every Root stored into a Vm-owned '
                        'container by code reachable from Vm::run is bounded by a constant or retained by design.'
                        ' Round 5: G5 every Root-yielding function adds exactly one to the root count, G6 the parked return slot is emptied when taken.'
-                       ' Rounds 9-10: G7 wrapper impls forward every overridden method of the collector\'s trait; G8 no fiber-to-fiber edge besides the caller link.',
+                       ' Rounds 9-10: G7 wrapper impls forward every overridden method of the collector\'s trait; G8 no fiber-to-fiber edge besides the caller link.'
+                       ' Round 11: two seeds (an object kept alive by a list entry never removed on one path) are documented as undecided.',
         'assumptions': COMMON_ASSUME,
         'not_decided': ['the quantitative bound (2x + one allocation): arithmetic over run-time byte counts',
                         'that unreachable objects are actually unreferenced by roots at run time'],
@@ -56,7 +58,8 @@ PROPS = {
                        ' Rounds 3-5: R1 (complete tracing), H4 (no mutable map borrow while a key is formatted), B4 (no truncated jump operand), L6 (no stale throw site) also run here.'
                        ' Round 6: V2 (no debug-only assertion on a data-dependent step count) and V5 (checked arithmetic on program-chosen integers) also run here.'
                        ' Round 7: P10 iterators over mutable collections compare their cursor with the current len() before every element read; V6 (difference of two lengths) and X2b also run here. Round 8: P4 (no heap cell borrowed again while a guard of the same payload type is alive), P11 (fixed-capacity Stacks other than the value stack are pushed to behind a capacity test), P1 with arity-relative slot depths, L4 (every raise records its own site: a stale site in another function\'s code made runtime_error panic), H1, B5 and S10 also run here.'
-                       ' Rounds 9-10: U3 over every str slice outside the scanner, M5, R0, R2, H13 (no Hasher::write diverges) also run here; P4 discharges closures over validated keys and methods of the map object that only wrap keyed operations.',
+                       ' Rounds 9-10: U3 over every str slice outside the scanner, M5, R0, R2, H13 (no Hasher::write diverges) also run here; P4 discharges closures over validated keys and methods of the map object that only wrap keyed operations.'
+                       ' Round 11: P12 no unwrap of f64::partial_cmp; P13 narrowing casts outside the compiler are bounded; F12 a re-initialised fiber resets every per-run field; S4 also runs here; P6 keys fold closures into their function.',
         'assumptions': COMMON_ASSUME,
         'not_decided': ['that each remaining unwrap/expect/index in the VM is unreachable (they depend on the compiler/VM contract, C04)',
                         'integer-overflow asserts', 'host natives beyond P1/P2'],
@@ -78,7 +81,8 @@ PROPS = {
                        ' Rounds 3-5: X12 the catch block must run under a handler leading to finally (known finding), X13 one JumpFinally per nesting level, X14 the parked return value is traced, N1.'
                        ' Round 6: B4 (handler offsets are not truncated) also runs here.'
                        ' Round 7: X15 entering a try block always pushes a handler entry; X2b handler removal on break / continue is counted from the loop header; X11 also rejects a return_impl that clears a single-slot in-flight flag. Round 8: X16 (only unwind_stack reads a handler\'s entry address), X18 (unwind_stack sets the in-flight state from the handler it delivers to, on every path), P11 also runs here.'
-                       ' Rounds 9-10: X3 natives in scope, X3c re-armed fibers; S1 also runs here; X16 accepts closures of unwind_stack.',
+                       ' Rounds 9-10: X3 natives in scope, X3c re-armed fibers; S1 also runs here; X16 accepts closures of unwind_stack.'
+                       ' Round 11: X20 the parked-return slot is filled only by JumpFinally; P13 also runs here.',
         'assumptions': COMMON_ASSUME,
         'not_decided': ['which handler receives which exception at run time', '"finally runs exactly once" on every exit (dynamic)',
                         'exceptions thrown inside catch/finally blocks'],
@@ -98,7 +102,8 @@ PROPS = {
                        ' Rounds 3-5: S2 on every path incl. break/continue, S4 also for a vector representation and keeps the list tail, S6 frame removal is dominated by close_upvalues, X9.'
                        ' Round 6: B4 (an upvalue index that does not fit its operand byte) also runs here.'
                        ' Round 7: S7 the hidden slot-zero local is named by a compiler constant, never by text from the source. Round 8: S2 restated over instruction classes taken from the VM handlers (closing vs. dropping), S8, S9, S10 (a variable name taken from program data is checked against the reserved words), CC1 (a remembered look-up is rewritten by every writer of its table).'
-                       ' Rounds 9-10: S2 / B11 find the scope-exit chooser by role; S12 direction of the emitted sequence (rules/seqdir.py); S13 Closure pushes its own allocation; S10 the scanned text is the token\'s text; CC2, M2 also run here.',
+                       ' Rounds 9-10: S2 / B11 find the scope-exit chooser by role; S12 direction of the emitted sequence (rules/seqdir.py); S13 Closure pushes its own allocation; S10 the scanned text is the token\'s text; CC2, M2 also run here.'
+                       ' Round 11: S14 scope look-ups compare names as text.',
         'assumptions': COMMON_ASSUME,
         'not_decided': ['name resolution results', 'ordering of the open-upvalue list', 'sharing across fibers at run time'],
         'level_text': 'Decides S1-S3 for every stack-lowering site and the capture emit/read siblings; what a name resolves to is not decided.',
@@ -114,7 +119,8 @@ PROPS = {
                        ' Later additions (DESIGN 3a.5/3a.6): F4 switch errors are raised before link state is written; S5 a yield does not close the suspended fiber\'s upvalues.'
                        ' Rounds 3-5: S5/S6/S1 (upvalues across yields and at fiber end), X3 handlers dropped on the same fiber, F2 into the innermost frame, F5 finished is tested first.'
                        ' Round 6: F6 a switch overwrites no VM-wide state besides the fiber pointers and the frame registers, F7 call_native removes arguments only for natives that do not manage the stack. Round 8: F8 (what a fiber switch carries depends on the argument count only), F9 (is_new is decided from the frame list), L4 / L10 (the site of an exception in flight is recorded per fiber and per frame) also run here.'
-                       ' Rounds 9-10: F10 caller link written / cleared on every completed switch; F11 the root / active fiber is never handed out as a value; R1 (with the open-upvalue finding) and S9 also run here; F4 / F5 refined (taking an empty link, link predicates).',
+                       ' Rounds 9-10: F10 caller link written / cleared on every completed switch; F11 the root / active fiber is never handed out as a value; R1 (with the open-upvalue finding) and S9 also run here; F4 / F5 refined (taking an empty link, link predicates).'
+                       ' Round 11: F12 re-initialised fibers; F13 the fiber built-ins change nothing before the last error exit; X20, R2 also run here.',
         'assumptions': COMMON_ASSUME,
         'not_decided': ['interleavings of several fibers', 'per-fiber isolation of locals/handlers at run time',
                         'that error cases leave every fiber untouched'],
@@ -133,7 +139,8 @@ PROPS = {
                        ' Round 5: V5 covers abs/pow/neg at isize::MIN; F4 and G2 also run here.'
                        ' Round 6: V2 also rejects a debug-only cap on the step count of a data-dependent loop; R1 (complete tracing: the stress and the paced collector expose an untraced edge differently) also runs here.'
                        ' Round 7: V2 also rejects a debug_assert! whose expression mutates state; V6 a difference of two program-chosen lengths is taken only after comparing them; P10 also runs here. Round 8: V1 judges trace-only blocks by recursive purity (read-only std iterators, pure workspace helpers); B5, P11 and R2 also run here; V7 (no comparison or branch depends on a reading of the clock).'
-                       ' Rounds 9-10: V8 constants (the embedded core source included) agree across configurations; V9 every function makes the same calls in every configuration (#[cfg] statements); V1 excuses a listed function only for arms that write no memory; B4n, G3 also run here.',
+                       ' Rounds 9-10: V8 constants (the embedded core source included) agree across configurations; V9 every function makes the same calls in every configuration (#[cfg] statements); V1 excuses a listed function only for arms that write no memory; B4n, G3 also run here.'
+                       ' Round 11: V10 no overflow-checked u64 arithmetic in hash mixing; P1 also runs here.',
         'assumptions': COMMON_ASSUME + ['C01 (pacing arms are equivalent only if collection is safe at every allocation)',
                                         'C04/C02 (check-only arms differ only when the checked condition holds)'],
         'not_decided': ['observable equality of outputs (needs both binaries to run)'],
@@ -154,7 +161,8 @@ PROPS = {
                        ' Rounds 3-5: N5 compile() writes only chunks and the intern table, N6 reset() clears main\'s globals, F5.'
                        ' Round 6: E7 (a failed global assignment defines nothing) also runs here.'
                        ' Round 7: M5 (a failed run drops no module from the registry) also runs here. Round 8: N1 verifies the reason a non-reset field is listed harmless (no overwriter looks at the value it replaces), N8, S8, F9 also run here.'
-                       ' Rounds 9-10: E12 also runs here; N9 no unscoped thread-local state outside the allocator; N10 the core source is compiled in the module reset() keeps; N1 / N4 accept a buffer that is only ever stored empty.',
+                       ' Rounds 9-10: E12 also runs here; N9 no unscoped thread-local state outside the allocator; N10 the core source is compiled in the module reset() keeps; N1 / N4 accept a buffer that is only ever stored empty.'
+                       ' Round 11: N11 the script closure\'s module comes from the registry look-up; F12 also runs here.',
         'assumptions': COMMON_ASSUME + ['classification of Vm fields in rules/tables/c15_vm_fields.json'],
         'not_decided': ['behavioural equivalence with one program run piecewise', 'that reset() is observably identical to a new Vm'],
         'level_text': 'Decides N1-N4 for all 17 fields of Vm and the execute/runtime_error/reset paths.',
@@ -173,7 +181,8 @@ PROPS = {
                        ' Rounds 3-5: L7 no synthetic token reaches an error or line record, L8 the integrality classifier, N1.'
                        ' Round 6: L9 the class named in an uncaught-error report is the instance\'s own class; B5 (the frame limit is tested before the push) also runs here.'
                        ' Round 7: L3 extended to every advance() loop of the scanner (found defect f5767c9: a newline inside a \\x escape was not counted). Round 8: L4 restated (every raise records its own site; a rethrow keeps it; unwind_stack re-points it when it discards frames), L10 (the site is kept, used and forgotten together with the depth of its frame), L3 look-ahead analysis (no advance() consumes a character nothing has looked at).'
-                       ' Rounds 9-10: E12, B4n also run here; L12 add_chunk returns its own allocation; L13 CORE_SOURCE == core.yl; L14 the command line interprets the content it read (or a length- and line-preserving edit of it); L15 add_message keeps every line.',
+                       ' Rounds 9-10: E12, B4n also run here; L12 add_chunk returns its own allocation; L13 CORE_SOURCE == core.yl; L14 the command line interprets the content it read (or a length- and line-preserving edit of it); L15 add_message keeps every line.'
+                       ' Round 11: L16 host built-ins reach no unwrap / expect of an I/O or decoding result.',
         'assumptions': COMMON_ASSUME,
         'not_decided': ['that reported lines are the right ones for every call shape', 'message texts'],
         'level_text': 'Decides L1-L3 for the two error tables, the line table writers and the scanner newline sites.',
@@ -190,7 +199,8 @@ PROPS = {
                        ' Rounds 4-5: H6 literal and insert store alike, H7 hashable heap kinds are traced, P8.'
                        ' Round 6: H7 also demands that the map\'s own key and value edges are traced whole (not one variant only); H8 the entry count of a literal is widened before it is doubled.'
                        ' Round 7: E8 (numbers compare with one IEEE `==`: no reflexive NaN on one side only) and B4 (the operand byte of a map literal) also run here. Round 8: H9 (a collection value built by a native wraps an object allocated in the same call), E9 and CC1 also run here.'
-                       ' Rounds 9-10: CC2 summary counters kept with their collection; E4, E12 also run here; H10 tuple / map / range tracing unconditional; H12 a kind compared by content is not hashed by address; H13; H2 / H6 follow methods of the map object.',
+                       ' Rounds 9-10: CC2 summary counters kept with their collection; E4, E12 also run here; H10 tuple / map / range tracing unconditional; H12 a kind compared by content is not hashed by address; H13; H2 / H6 follow methods of the map object.'
+                       ' Round 11: H14 tuple equality compares lengths wherever it pairs elements.',
         'assumptions': COMMON_ASSUME + ['std::collections::HashMap implements a map for coherent Hash/Eq'],
         'not_decided': ['agreement with an abstract map over all operation histories', 'enumeration order / exactly-once of keys/values/items'],
         'level_text': 'Decides H1-H4: the Hash/Eq coherence conditions under which the std HashMap is a map keyed by the language\'s ==.',
@@ -211,7 +221,8 @@ PROPS = {
                        ' Rounds 4-5: B4n no sub-word counter arithmetic can overflow in the compiler.'
                        ' Round 6: T4 (every limit refuses on its exceeding side) and S2 (captured locals leave through CloseUpvalue on every path) also run here.'
                        ' Round 7: B11 end_scope emits the scope\'s pops on every path. Round 8: B1 also reads the compound emitters (scope end, return); B5 takes the value-stack capacity from ObjFiber\'s field type; X8 handles try-region state kept on the Parser; F8 (stack height after Fiber.call / Fiber.yield does not depend on the argument\'s value) also runs here.'
-                       ' Rounds 9-10: B12 add_constant answers by value identity only; B13 net stack effect per handler path; B14 constant indexes made for the current chunk; S12 scope-exit instructions innermost first; X4, S10 also run here; the emission model summarises raw-byte helpers.',
+                       ' Rounds 9-10: B12 add_constant answers by value identity only; B13 net stack effect per handler path; B14 constant indexes made for the current chunk; S12 scope-exit instructions innermost first; X4, S10 also run here; the emission model summarises raw-byte helpers.'
+                       ' Round 11: B15 emitted code is never taken back; B12 the constant map is keyed by the value; B2\'s emit_loop clause counts the bytes written after the length is read; K4 also runs here.',
         'assumptions': COMMON_ASSUME + ['field bounds in rules/tables/c04_field_bounds.json (each re-verified against its guarded writer)'],
         'not_decided': ['that one instruction is never reached with two operand-stack heights', 'that operands name existing locals/captures '
                         '(properties of generated code; a bytecode verifier over compiler output would be a different technique family)'],
@@ -232,7 +243,8 @@ PROPS = {
                        ' Round 5: I5 the hasher has no alignment- or address-dependent step.'
                        ' Round 6: V2 (no debug-only cap on probe steps) also runs here.'
                        ' Round 7: R1s / R1c (no slot of the intern table is ever emptied) also run here. Round 8: I4 also requires that a slot counts as free only because the entry in it is None (no side table of tags decides).'
-                       ' Rounds 9-10: I6 the look-up answers only after the probe (an empty table aside); I7 string makers answer from the table or the new allocation; every rule binds the string store\'s module itself.',
+                       ' Rounds 9-10: I6 the look-up answers only after the probe (an empty table aside); I7 string makers answer from the table or the new allocation; every rule binds the string store\'s module itself.'
+                       ' Round 11: B12 also runs here.',
         'assumptions': COMMON_ASSUME + ['the FNV hash and str == of the standard library are functions of the bytes'],
         'not_decided': ['functional correctness of the open-addressing table over all insertion histories (a model-checking question)'],
         'level_text': 'Decides I1-I4: the structural conditions under which interning makes identity equal content equality.',
@@ -251,7 +263,8 @@ PROPS = {
                        ' Rounds 3-5: U5 range-cache equality, U6 slices always copy, R5b operands stay rooted until the slice exists.'
                        ' Round 6: D1/D2 (number <-> string conversions are std\'s Display / parse::<f64> on the whole text) also run here.'
                        ' Round 7: U7 (= V6, String.find) and T6 (escapes are cut at character boundaries) also run here. Round 8: U8 (escape sequences become text through std\'s from_utf8, not a hand-written decoder), U3 understands RangeTo / RangeFrom.'
-                       ' Rounds 9-10: U3 everywhere outside the scanner; U11 IndexError only behind validate_integer (as an order); R2, N9, I1 also run here; U2\'s funnel clause no longer fixes the spelling.',
+                       ' Rounds 9-10: U3 everywhere outside the scanner; U11 IndexError only behind validate_integer (as an order); R2, N9, I1 also run here; U2\'s funnel clause no longer fixes the spelling.'
+                       ' Round 11: U1 also bans unchecked construction of chars; P13 also runs here.',
         'assumptions': COMMON_ASSUME,
         'not_decided': ['byte-exact results of every string function and of negative-index arithmetic (numerical/behavioural: needs '
                         'execution against a model)', 'documented error kind per failing input'],
@@ -271,7 +284,8 @@ PROPS = {
                        ' Later additions (DESIGN 3a.5/3a.6): X7 nothing after a delivered ImportError; M4 registration only after load and compile succeeded; X9 the active module is reloaded whenever the frame list changes.'
                        ' Rounds 3-5: M4c compile() reaches no registry writer, M5 key = path as written / removal only in reset / built-ins from the class store.'
                        ' Round 6: M6 every core class the interpreter reads back from main\'s globals is exported to each new module under the same name (found defect fd417cd). Round 8: M7 (an import at the call-depth limit fails before the module is registered), M3 covers every function used as a module loader, CC1 and N8 (a counter raised by one instruction and lowered by another is restored by unwinding) also run here.'
-                       ' Rounds 9-10: CC2, R2 also run here.',
+                       ' Rounds 9-10: CC2, R2 also run here.'
+                       ' Round 11: M1\'s flag clauses fail closed (cannot decide) on a tree without the per-module flag.',
         'assumptions': COMMON_ASSUME,
         'not_decided': ['that every import yields the *same* object at run time (follows from the single registry writer, not executed)',
                         'that the built-ins behave the same in every module (only the set of exported names and the classes behind them is decided, by M6)'],
@@ -291,7 +305,8 @@ PROPS = {
                        ' Later additions (DESIGN 3a.5/3a.6): T6 scanner slices only at character boundaries; T7 take_attribute hands an attribute out only with exactly the requested argument count, and constant indexes into attr.arguments stay below it.'
                        ' Rounds 4-5: T8 every element-wise read in the scanner is preceded by a length comparison. Termination of error recovery is decided only as "each parser loop iteration calls something that may scan".'
                        ' Round 6: T6 also checks the producer (a position computed by arithmetic on the argument is compared with len() before it is returned); T9 no parser loop can go round without consuming a token, for any kind of current token (abstract interpretation over token-kind sets with per-function summaries; c03_progress.py). Round 7: the summaries are results, not preconditions (a parse_precedence that refuses a token without consuming it is reported as the loops that spin); check_any(&[..]) is understood. Round 8: T10 (a lexical error parked while scanning a literal is reported on every path), T11 (every path from declaring a local to the end of the function initialises it, error paths included), T2 accepts tokens handed up by helpers that make them behind progress.'
-                       ' Rounds 9-10: T12 scanner loops end at end of input; T13 unwrapped integer conversions fit on every path (error-reported paths included); T14 no unwrap on text conversions; T2 end-of-input clause (Eof, or an error token that pops a scanner stack); B4n over everything compile() reaches; U3 for compile-time slices.',
+                       ' Rounds 9-10: T12 scanner loops end at end of input; T13 unwrapped integer conversions fit on every path (error-reported paths included); T14 no unwrap on text conversions; T2 end-of-input clause (Eof, or an error token that pops a scanner stack); B4n over everything compile() reaches; U3 for compile-time slices.'
+                       ' Round 11: B7 also runs here.',
         'assumptions': COMMON_ASSUME,
         'not_decided': ['absence of slicing/unwrap panics on garbled input beyond the scanner rules T6/T8 (a for-all-inputs statement about a hand-written parser)',
                         'termination is decided per loop (T2 scanner, T9 parser: no token-testing loop can go round unconsumed); loops driven by data rather than '
@@ -313,7 +328,8 @@ PROPS = {
                        ' Rounds 3-5: E6 one integrality classifier (+-inf integral), E7 a failed global assignment defines nothing, T3 the precedence table.'
                        ' Round 6: U2 (slice bounds) also runs here.'
                        ' Round 7: E8 PartialEq for Value compares numbers with one IEEE `==` and nothing else. Round 8: E9 (value equality writes no state: a visited flag on one operand makes == asymmetric); I1 (every string an operator produces comes out of the intern table) also runs here.'
-                       ' Rounds 9-10: E10 operators examine the kind of every operand they constrain; E11 arithmetic on f64 only; E12 no interior mutability in shared immutable objects; E13 every kind has a same-kind arm in PartialEq (fix fc343c2); D4, X2b, S12 also run here.',
+                       ' Rounds 9-10: E10 operators examine the kind of every operand they constrain; E11 arithmetic on f64 only; E12 no interior mutability in shared immutable objects; E13 every kind has a same-kind arm in PartialEq (fix fc343c2); D4, X2b, S12 also run here.'
+                       ' Round 11: E2\'s range clause reads operands by pop or peek, follows a validation helper and requires the END operand to be judged first; B4, B15 also run here; E9 ignores stores into memory the comparison allocated.',
         'assumptions': COMMON_ASSUME,
         'not_decided': ['precedence / associativity table contents', 'value results and error kinds per operand kind',
                         'statement-level control flow at run time', 'evaluate-once and left-to-right order of sub-expressions'],
@@ -332,7 +348,8 @@ PROPS = {
                        ' Rounds 4-5: K4 super\'s receiver is the nearest enclosing method of any kind; S2/S4 for classes captured by their own methods.'
                        ' Round 6: K5 `Self` ends in an instruction whose handler takes the class of the receiver at run time.'
                        ' Round 7: Q6 (the implicit it.next() of a for loop is dispatched like a written one) also runs here. Round 8: K2 (inherit copies every entry of the superclass\'s table), K6 (super is checked against the innermost open class: a per-class stack), K2/K3/K4 by role (synthetic names, spliced kind predicates); S10 also runs here.'
-                       ' Rounds 9-10: K7 call_value gets the value in the callee slot; B12, R2, S12 also run here; K4 skips every kind of plain function, by where kinds are made.',
+                       ' Rounds 9-10: K7 call_value gets the value in the callee slot; B12, R2, S12 also run here; K4 skips every kind of plain function, by where kinds are made.'
+                       ' Round 11: K8 attribute look-ups keep absent apart from nil.',
         'assumptions': COMMON_ASSUME,
         'not_decided': ['dispatch results', 'what Self / super denote at run time', 'constructor protocol', 'static-method Self'],
         'level_text': 'Decides K1-K2 only; explicitly a fragment of the property.',
@@ -357,7 +374,8 @@ PROPS = {
                        'value is never dropped unused, Q8f every iterator class of the core source is its own iterator.'
                        ' Round 5: Q6 IterNext dispatches through Vm::invoke; E4 also runs here.'
                        ' Round 7: Q7 derives() starts at get_class(receiver) for every kind of receiver; P10 and U5 also run here. Round 8: Q1 (the iterator a successful iter() returns is the one just allocated; the earlier test was vacuous), Q2 sibling clause (JumpIfStopIter walks the ancestry like derives()), Q4 (every instruction of the for desugaring is emitted unconditionally), P10 for cursor-derived indexes anywhere.'
-                       ' Rounds 9-10: Q8a-Q8f protocol typestate of the adapters in the core source; R0, R2 also run here; Q4 reads from the handler who pops the end marker.',
+                       ' Rounds 9-10: Q8a-Q8f protocol typestate of the adapters in the core source; R0, R2 also run here; Q4 reads from the handler who pops the end marker.'
+                       ' Round 11: B4 also runs here.',
         'assumptions': COMMON_ASSUME,
         'not_decided': ['map / filter / reduce / collect results beyond the protocol clauses Q8a-Q8f (what the adapters compute is a run-time value)',
                         'user-defined iterator classes', 'that the sequence of yielded values equals the model sequence (a run-time statement)'],
@@ -378,7 +396,8 @@ PROPS = {
                        ' Rounds 3-5: D2 parse\'s Ok payload reaches the result unfiltered and every parse on the way is parse::<f64>.'
                        ' Round 6: D4 also covers print and requires every string value made by String.from / interpolation to be the one just formatted (no remembered text).'
                        ' Round 7: D2 also requires the place where the number is produced to be dominated by the parse call (no pre-check in front of the parser). Round 8: D3 restated as an analysis of what is known about the next two characters; D2 follows the literal\'s text through separator-removing steps; I4 also runs here (the text of a number is an interned string).'
-                       ' Rounds 9-10: D5 the number token is make_token\'s, unedited (or an error token); E5, B14, H3 also run here.',
+                       ' Rounds 9-10: D5 the number token is make_token\'s, unedited (or an error token); E5, B14, H3 also run here.'
+                       ' Round 11: all three seeds reported at first contact; no new rule.',
         'assumptions': COMMON_ASSUME + ['Rust std: `Display for f64` prints the shortest decimal that parses back to the same value, integral '
                                         'values without a fraction, "NaN" and "inf"; `str::parse::<f64>` is correctly rounded and accepts those'],
         'not_decided': ['the round trip itself for all doubles (delegated to std\'s guarantee)', 'which double a literal denotes beyond "what std parses"'],
